@@ -23,6 +23,8 @@ type Layout struct {
 	Desc  bool   // add a description after the ID
 	Sep   string // whitespace between ID and description ("" = one space)
 	Lead  string // whitespace between '>' and the ID (usually none)
+	// LongDesc > 0: the description is padded with key=value pairs to a header line of about this many bytes
+	LongDesc int
 }
 
 // Header is the header text (without '>') of record i under this layout.
@@ -34,6 +36,9 @@ func (l Layout) Header(i int, name string) string {
 			sep = " "
 		}
 		h += sep + fmt.Sprintf("sample %d", i)
+		if l.LongDesc > len(h) {
+			h += " " + strings.Repeat("lineage=B.1.1.7;country=ACGTN;", (l.LongDesc-len(h))/30+1)[:l.LongDesc-len(h)-1]
+		}
 	}
 	return h
 }
@@ -514,6 +519,122 @@ func sortInts(a []int) {
 	for i := 1; i < len(a); i++ {
 		for j := i; j > 0 && a[j] < a[j-1]; j-- {
 			a[j], a[j-1] = a[j-1], a[j]
+		}
+	}
+}
+
+// ---------- scale ----------
+//
+// Small inputs cannot reach behaviour that changes only past some size: a fixed-size buffer or ring, a
+// position stored in a narrow integer type, a block-wise fast path. A small share of the trials of every
+// model-based check therefore uses sizes around the powers of two where such thresholds live.
+
+// scaleWidth is an alignment width just below, at or a little above 2^k, k in {6,7,8,10,12,13,15,16,17}.
+func scaleWidth(r *Rand) int {
+	k := []int{6, 7, 7, 8, 8, 10, 12, 13, 15, 16, 16, 16, 17}[r.Intn(13)]
+	return (1 << uint(k)) + r.Range(-2, 70)
+}
+
+// scaleWidthUpTo is scaleWidth with the exponent capped.
+func scaleWidthUpTo(r *Rand, maxK int) int {
+	for {
+		if w := scaleWidth(r); w <= (1<<uint(maxK))+70 {
+			return w
+		}
+	}
+}
+
+// blockEdgeRuns puts short runs of non-A/C/G/T symbols right before and right after multiples of 64, 256 or
+// 1024 columns (where a block-wise scan changes blocks), leaving the blocks between them untouched.
+func blockEdgeRuns(r *Rand, s string) string {
+	b := []byte(s)
+	blk := r.PickInt(64, 64, 256, 1024)
+	nb := len(b) / blk
+	if nb < 1 {
+		return s
+	}
+	for t := r.Range(1, 3); t > 0; t-- {
+		e := blk * r.Range(1, nb)
+		if r.P(0.8) { // a run that ends exactly on the last column of a block
+			for i, k := e-1, r.Range(1, 5); k > 0 && i >= 0; i, k = i-1, k-1 {
+				b[i] = "N-?R"[r.Intn(4)]
+			}
+		}
+		s2 := blk * r.Range(e/blk, nb)
+		if r.P(0.8) && s2 < len(b) { // a run that starts exactly on the first column of a (later) block
+			for i, k := s2, r.Range(1, 5); k > 0 && i < len(b); i, k = i+1, k-1 {
+				b[i] = "N-?Y"[r.Intn(4)]
+			}
+		}
+	}
+	return string(b)
+}
+
+// tailSNPs makes sure some of the last columns differ from the reference (a wide alignment whose
+// differences all lie below the threshold it is meant to cross would test nothing).
+func tailSNPs(r *Rand, ref, s string) string {
+	b := []byte(s)
+	for t := r.Range(1, 4); t > 0 && len(b) > 0; t-- {
+		i := len(b) - 1 - r.Intn(minInt(len(b), 60))
+		for k := 0; k < 4; k++ {
+			if c := "ACGT"[(r.Intn(4)+k)%4]; c != upper(ref[i : i+1])[0] {
+				b[i] = c
+				break
+			}
+		}
+	}
+	return string(b)
+}
+
+// inflateInsertion lengthens one insertion of one record to n bases (inserting random bases into SEQ).
+func inflateInsertion(r *Rand, sc *SamCase, n int) bool {
+	var cand [][2]int
+	for i, rec := range sc.Recs {
+		if rec.Flag&(4|256) != 0 || rec.Seq == "" {
+			continue
+		}
+		for j, op := range rec.Cigar {
+			if op.Op == 'I' {
+				cand = append(cand, [2]int{i, j})
+			}
+		}
+	}
+	if len(cand) == 0 {
+		return false
+	}
+	c := cand[r.Intn(len(cand))]
+	rec := &sc.Recs[c[0]]
+	off := 0
+	for _, op := range rec.Cigar[:c[1]] {
+		switch op.Op {
+		case 'M', 'I', 'S', '=', 'X':
+			off += op.Len
+		}
+	}
+	add := n - rec.Cigar[c[1]].Len
+	if add <= 0 || off > len(rec.Seq) {
+		return false
+	}
+	rec.Seq = rec.Seq[:off] + genRefSeq(r, add) + rec.Seq[off:]
+	cig := append([]CigOp(nil), rec.Cigar...)
+	cig[c[1]].Len = n
+	rec.Cigar = cig
+	return true
+}
+
+func minInt(a, b int) int {
+	if a < b {
+		return a
+	}
+	return b
+}
+
+// wideRuns keeps byte-sized read chunking away from inputs of hundreds of kilobytes (every Read is a
+// visible operation): whole-buffer or line-sized reads only.
+func wideRuns(rcs []RunCfg) {
+	for i := range rcs {
+		if c := rcs[i].Chunk; c == 1 || c == 2 || c == 4 {
+			rcs[i].Chunk = 3 * (i % 2)
 		}
 	}
 }
